@@ -677,3 +677,43 @@ package tq
 //@   forbid (*tq.adapterBase).End
 //@   forbid (*sync.WaitGroup).Wait
 //@   at go (*tq.adapterBase).worker:1 assert arg1__ == i
+
+// C03, pure SSH transfer: an upload is reported done (nil) only after the
+// object was put - the whole file of the transfer, under its own oid, answered
+// 2xx - and the server verified it (verify-object for the same oid, answered
+// 2xx); a 403 or 429 is retriable, any other refusal is an error.
+//@ func (*SSHAdapter).upload
+//@   props C03
+//@   requires @inv a != nil && t != nil && a.transfer != nil
+//@   at call os.OpenFile:1 assert @C03 arg0__ == t.Path && arg1__ == 0
+//@   at call (*tq.SSHAdapter).doUpload:1 assert @C03 arg1__ == t && arg2__ == workerNum && arg3__ == f
+//@   at call (*tq.SSHAdapter).verifyUpload:1 assert @C03 arg1__ == t && arg2__ == workerNum && status >= 200 && status <= 299
+//@   ensures @C03 result == nil ==> sshverified(t)
+//@ func (*SSHAdapter).verifyUpload
+//@   props C03
+//@   monitor sshverified[t] := result == nil
+//@   requires @inv a != nil && t != nil && a.transfer != nil
+//@   at call (*ssh.PktlineConnection).SendMessage:1 assert @C03 arg1__ == scat("verify-object ", t.Oid) && arg2__ == args
+//@   ensures @C03 result == nil ==> lastsshstatus(0) >= 200 && lastsshstatus(0) <= 299
+//@ func (*SSHAdapter).doUpload
+//@   props C03
+//@   requires @inv a != nil && t != nil && a.transfer != nil && f != nil
+//@   at call tools.NewFileBodyWithCallback:1 assert @C03 arg0__ == f && arg1__ == t.Size
+//@   at call (*ssh.PktlineConnection).SendMessageWithData:1 assert @C03 arg1__ == scat("put-object ", t.Oid) && arg2__ == args && arg3__ == iface(cbr)
+//@ func (*github.com/git-lfs/git-lfs/v3/ssh.PktlineConnection).ReadStatusWithLines
+//@   assumed
+//@   props C03
+//@   modifies fresh
+//@   monitor lastsshstatus[0] := result0
+//@ func (*github.com/git-lfs/git-lfs/v3/ssh.PktlineConnection).SendMessageWithData
+//@   assumed
+//@   props C03
+//@   modifies fresh, ghost rrest
+// The SSH adapter's entry point: an upload adapter uploads (and therefore
+// verifies), a download adapter downloads - the very transfer it was given.
+//@ func (*SSHAdapter).DoTransfer
+//@   props C03 C02
+//@   requires @inv a != nil && t != nil && a.adapterBase != nil
+//@   at call (*tq.SSHAdapter).upload:1 assert a.adapterBase.direction == Upload && arg1__ == t
+//@   at call (*tq.SSHAdapter).download:1 assert a.adapterBase.direction != Upload && arg1__ == t
+//@   ensures @C03 result == nil && a.adapterBase.direction == Upload ==> sshverified(t)
